@@ -3,14 +3,14 @@
     ensures
         idx < self.items@.len() ==> res == Some((&self.items@[idx as int].0, self.items@[idx as int].1)),
         idx >= self.items@.len() ==> res is None,
-//@ closure 1
+//@ closure map 1 optional
 |item: &(P, Action)| -> (r: (&P, Action)) ensures r == (&item.0, item.1)
 //@ fn AspaDelta::get
 //@ spec
     ensures
         idx < self.items@.len() ==> res == Some((&self.items@[idx as int].0, aspa_action(&self.items@[idx as int].1))),
         idx >= self.items@.len() ==> res is None,
-//@ closure 1
+//@ closure map 1 optional
 |item: &(Aspa, AspaAction)| -> (r: (&Aspa, Action)) ensures r == (&item.0, aspa_action(&item.1))
 //@ fn DeltaArcIter::new
 //@ spec
@@ -36,7 +36,7 @@
     ensures
         idx < self.vec@.len() ==> res == Some((&self.vec@[idx as int].0, &self.vec@[idx as int].1)),
         idx >= self.vec@.len() ==> res is None,
-//@ closure 1
+//@ closure map 1 optional
 |item: &(P, PayloadInfo)| -> (r: (&P, &PayloadInfo)) ensures r == (&item.0, &item.1)
 //@ fn SnapshotArcIter::new
 //@ spec
@@ -64,7 +64,7 @@
         res matches Some(x) ==> old(self).pos() < snap_len(&old(self).snapshot)
             && x == snap_at(&old(self).snapshot, old(self).pos()) && final(self).pos() == old(self).pos() + 1,
         res is None ==> old(self).pos() == snap_len(&old(self).snapshot) && final(self).pos() == old(self).pos(),
-//@ closure 1
+//@ closure map 1 optional
 |__cp1: (PayloadRef<'_>, &PayloadInfo)| -> (r: PayloadRef<'_>) ensures r == __cp1.0
 //@ prelude
 // The leaf appenders of DeltaStream (ASSUMED contracts; bodies are format strings).
